@@ -180,7 +180,15 @@ void Stats::processMsg(int sockfd) {
   char mode = 'a';
   char byte_buf;
   int num_read = 0;
+  // ~Stats waits at most 5s for the handlers. Every read below may block for
+  // the 2s receive timeout, so a client dribbling bytes must be cut off.
+  const auto deadline =
+      std::chrono::steady_clock::now() + std::chrono::seconds(1);
   for (; num_read < 32; num_read++) {
+    if (std::chrono::steady_clock::now() > deadline) {
+      OLOG << "Stats server error: request took too long";
+      return;
+    }
     int res = ::read(sockfd, &byte_buf, 1);
     if (res < 0) { // Error reading
       OLOG << "Stats server error: reading from socket: "
@@ -200,6 +208,10 @@ void Stats::processMsg(int sockfd) {
 
   if (num_read == 0) {
     OLOG << "Stats server error: no msg received";
+  }
+  if (std::chrono::steady_clock::now() > deadline) {
+    OLOG << "Stats server error: request took too long";
+    return;
   }
 
   Json::Value root;
